@@ -329,11 +329,17 @@ func (b *Builder) genField(ctx pairCtx, src, dst *SDecl, name, mech string) {
 			sibling = name
 			name = name + "By"
 		}
+		// the nested SOURCE struct may be reached through a getter that returns it by value: its members
+		// are then members of a value without an address (no pointer-receiver getters on it)
+		viaGetter := mech == "nested" && sibling == "" && b.chance(0.2)
 		sub := ctx
 		sub.depth++
 		sub.srcPkg, sub.dstPkg = sp, dp
 		sub.dstPath = append(append([]string{}, ctx.dstPath...), name)
 		sub.srcPath = append(append([]string{}, ctx.srcPath...), name)
+		if viaGetter {
+			sub.srcPath[len(sub.srcPath)-1] = name + "()"
+		}
 		sub.topLevel = false
 		nf := 1 + b.R.Intn(3)
 		if b.chance(0.1) {
@@ -392,6 +398,15 @@ func (b *Builder) genField(ctx pairCtx, src, dst *SDecl, name, mech string) {
 			return
 		}
 		dst.Fields = append(dst.Fields, FDecl{Name: name, Type: dt})
+		if viaGetter {
+			src.Fields = append(src.Fields, FDecl{Name: "g" + name, Type: st})
+			src.Methods = append(src.Methods, getterSrc(src.Pkg, src.Name, name, st, "r.g"+name, b.chance(0.25)))
+			if _, ok := m.Get("getter"); !ok && b.chance(0.7) {
+				m.Notations = append(m.Notations, Notation{Name: "getter"})
+			}
+			b.addProbe(ctx, name, mech, dt, st, "via-getter")
+			return
+		}
 		src.Fields = append(src.Fields, FDecl{Name: name, Type: st})
 		b.addProbe(ctx, name, mech, dt, st, "")
 	case "skip":
